@@ -88,6 +88,9 @@ type simShape struct {
 	// after the warm-up, so that the action list runs on a mixed-role shard (full
 	// members + non-voting members / a witness) from its first action on
 	EarlyJoin int
+	// Unreach: the transport reports the target of every lost Replicate / Heartbeat /
+	// InstallSnapshot message as unreachable to the sender
+	Unreach bool
 }
 
 type simCase struct {
@@ -256,6 +259,7 @@ func genShape(t *rapid.T, p profile) simShape {
 	for i := 0; i < sh.Voters+nsp; i++ {
 		sh.TimeoutOffs = append(sh.TimeoutOffs, vfhelp.PickN(t, "toff", sh.ElectionRTT))
 	}
+	sh.Unreach = vfhelp.Pick(t, "unreach", 1) == 1
 	if sh.Warm && nsp > 0 && vfhelp.Pick(t, "earlyjoin", 1) == 1 {
 		sh.EarlyJoin = 1 + vfhelp.PickN(t, "earlyjoinn", nsp)
 	}
@@ -365,6 +369,7 @@ func (s *sim) startedRep(i int) *simReplica {
 
 func (s *sim) setup(sh simShape) {
 	s.lingerRemoved = sh.LingerRemoved
+	s.unreach = sh.Unreach
 	for i := 1; i <= sh.Voters; i++ {
 		r := s.addReplica(uint64(i), kVoter, true)
 		r.timeoutOff = uint64(sh.TimeoutOffs[i-1])
@@ -1034,8 +1039,23 @@ func (s *sim) doAction(a simAction) {
 			s.propose(l, "k0", 1)
 			s.round(false)
 		}
+		if a.B%2 == 1 {
+			// the cut lasts longer than an election timeout (check quorum marks the follower
+			// inactive) and the leader keeps proposing after it compacted its log
+			for i := 0; i < int(s.opts.electionRTT)+2; i++ {
+				s.round(true)
+			}
+		}
 		s.snapshot(l, uint64(a.C%2))
 		s.round(false)
+		if a.B%2 == 1 {
+			if l2 := s.leader(); l2 != nil {
+				s.propose(l2, "k1", 1)
+				s.round(false)
+				s.propose(l2, "k1", 1)
+				s.round(false)
+			}
+		}
 		for k := range s.blocked {
 			if k[0] == f.id || k[1] == f.id {
 				delete(s.blocked, k)
